@@ -329,20 +329,41 @@ template<class P> static std::string stateOf(P& pool)
 	return o.str();
 }
 
-template<size_t BC, size_t CF> static std::string histCase(std::istringstream& is, bool trace = false)
+// pool variants of the coverage audit: other settings class, compile-time parameters, more (blockCount, cache) pairs
+template<size_t BC, size_t CF> using PoolN = MemPool<MemPoolParams<BC, CF>, PlaceMM, internal::NestedMemPoolSettings>;
+template<size_t BS, size_t AL, size_t BC, size_t CF> using PoolS = MemPool<MemPoolParamsStatic<BS, AL, BC, CF>, PlaceMM, MemPoolSettings>;
+static_assert(MemPoolSettings::extraCheckMode == ExtraCheckMode::assertion && MemPoolSettings::checkMode == CheckMode::assertion,
+	"the default pool settings are the asserting ones");
+static_assert(internal::NestedMemPoolSettings::extraCheckMode == ExtraCheckMode::nothing, "nested pools do not run the extra checks");
+static_assert(std::is_same<PoolN<32, 16>::Settings, internal::NestedMemPoolSettings>::value, "the nested-settings variant is really instantiated");
+static_assert(PoolS<24, 8, 32, 16>::Params::blockSize == 24 && PoolS<24, 8, 32, 16>::Params::blockAlignment == 8
+	&& PoolS<24, 8, 32, 16>::Params::blockCount == 32 && PoolS<24, 8, 32, 16>::Params::cachedFreeBlockCount == 16, "static parameters");
+static_assert(PoolS<5, 3, 1, 0>::Params::blockSize == 5 && PoolS<5, 3, 1, 0>::Params::blockCount == 1, "single-block static pool, odd alignment");
+static_assert(PoolS<17, 16, 2, 1>::Params::blockSize == 32, "static block size is corrected (17 -> 32 for alignment 16)");
+static_assert(Pool<127, 16>::Params::blockCount == 127 && Pool<1, 1>::Params::cachedFreeBlockCount == 1, "dynamic parameter classes");
+
+template<class P, class = void> struct MakeParams {
+	static typename P::Params make(size_t, size_t) { return typename P::Params(); } };
+template<class P> struct MakeParams<P, typename std::enable_if<std::is_constructible<typename P::Params, size_t, size_t>::value>::type> {
+	static typename P::Params make(size_t bs, size_t al) { return typename P::Params(bs, al); } };
+
+template<class P> static std::string histCaseP(std::istringstream& is, bool trace)
 {
+	static const size_t BC = P::Params::blockCount;
 	if (trace && BC == 1) return "n/a";
 	std::ostringstream tr; std::string lastRet = "-";
-	typedef Pool<BC, CF> P;
 	ull bs, al, endmode; std::string resStr;
 	is >> bs >> al >> endmode >> resStr;
 	gA.reset();
 	std::ostringstream merges; std::string failure;
-	size_t nOps = 0, maxLive = 0, maxBuffers = 0, nMerge = 0, nMergeNontrivial = 0, nIf = 0;
+	size_t nOps = 0, maxLive = 0, maxBuffers = 0, nMerge = 0, nMergeNontrivial = 0, nIf = 0, nSwap = 0, nMove = 0, nFlush = 0, nCacheHit = 0, nFreedIf = 0, nAll = 0;
 	auto fail = [&](const std::string& s) { if (failure.empty()) failure = s + " (op #" + std::to_string(nOps) + ")"; };
 	{
-		typename P::Params params{size_t(bs), size_t(al)};
-		const size_t B = params.GetBlockSize(), A = params.GetBlockAlignment();
+		typename P::Params params = MakeParams<P>::make(size_t(bs), size_t(al));
+		P pools[2] = { P(params), P(params) };
+		const size_t B = pools[0].GetBlockSize(), A = pools[0].GetBlockAlignment();
+		if (A != al) return "static-params-mismatch";
+		if (pools[0].GetBlockCount() != BC || pools[0].CanDeallocateAll() != (BC > 1) || pools[1].GetAllocateCount() != 0) return "FAIL getters";
 		{
 			// the manager contract: addresses are multiples of maxAllocAlignment = 16 (endmode bit 2: only the weaker
 			// min(16, lowbit(A)) granularity that pvGetAlignmentAddend relies on)
@@ -353,7 +374,6 @@ template<size_t BC, size_t CF> static std::string histCase(std::istringstream& i
 			std::istringstream rs(resStr); std::string tok;
 			while (std::getline(rs, tok, ',')) gA.residues.push_back(std::stoull(tok) % gA.period / g * g);
 		}
-		P pools[2] = { P(params), P(params) };
 		std::vector<LiveBlock> live[2];
 		std::map<uintptr_t, ull> all;          // every live block of both pools: address -> serial
 		ull serial = 0;
@@ -379,6 +399,7 @@ template<size_t BC, size_t CF> static std::string histCase(std::istringstream& i
 			maxBuffers = std::max(maxBuffers, gA.live.size());
 		};
 		auto doAlloc = [&](int p) {
+			if (pools[p].pvUseCache() && pools[p].mCachedCount > 0) ++nCacheHit;     // (read-only observation)
 			void* blk = pools[p].Allocate();
 			uintptr_t a = reinterpret_cast<uintptr_t>(blk);
 			if (a % A != 0) fail("block not aligned to blockAlignment");
@@ -401,6 +422,7 @@ template<size_t BC, size_t CF> static std::string histCase(std::istringstream& i
 			LiveBlock lb = live[p][k]; live[p].erase(live[p].begin() + long(k));
 			if (!verify(lb.addr, lb.serial)) fail("bytes written into a live block were overwritten by the pool");
 			all.erase(lb.addr);
+			if (pools[p].pvUseCache() && pools[p].mCachedCount >= P::Params::cachedFreeBlockCount) ++nFlush;
 			pools[p].Deallocate(reinterpret_cast<void*>(lb.addr));
 		};
 		std::string op;
@@ -417,6 +439,7 @@ template<size_t BC, size_t CF> static std::string histCase(std::istringstream& i
 				if (m == 0) m = 1;
 				++nIf;
 				size_t expectFreed = 0; for (auto& lb : live[p]) if (lb.serial % m == r % m) ++expectFreed;
+				nFreedIf += expectFreed;
 				size_t calls = 0; bool unknown = false;
 				pools[p].DeallocateIf([&](void* blk) {
 					++calls; auto it = all.find(reinterpret_cast<uintptr_t>(blk));
@@ -432,13 +455,13 @@ template<size_t BC, size_t CF> static std::string histCase(std::istringstream& i
 			else if (op[0] == 'x' && BC > 1)
 			{
 				for (auto& lb : live[p]) all.erase(lb.addr);
-				live[p].clear();
+				live[p].clear(); ++nAll;
 				pools[p].DeallocateAll();
 				verifyAll();
 			}
 			else if (op[0] == 's')
 			{	// pools[0].Swap(pools[1])
-				pools[0].Swap(pools[1]);
+				pools[0].Swap(pools[1]); ++nSwap;
 				live[0].swap(live[1]);
 				checkLists(); verifyAll();
 			}
@@ -448,7 +471,7 @@ template<size_t BC, size_t CF> static std::string histCase(std::istringstream& i
 				if (d == s2 || d < 0 || d > 1 || s2 < 0 || s2 > 1) { fail("bad move op"); break; }
 				if (live[d].empty())
 				{
-					pools[d] = std::move(pools[s2]);
+					pools[d] = std::move(pools[s2]); ++nMove;
 					live[d].swap(live[s2]); live[s2].clear();
 					checkLists(); verifyAll();
 				}
@@ -513,7 +536,8 @@ template<size_t BC, size_t CF> static std::string histCase(std::istringstream& i
 	if (trace) return failure.empty() ? tr.str() : "FAIL " + failure;
 	std::ostringstream o;
 	if (!failure.empty()) o << "FAIL " << failure;
-	else o << "ok ops=" << nOps << " maxlive=" << maxLive << " buffers=" << gA.nAlloc << " maxbuffers=" << maxBuffers << " merges=" << nMerge << " mergesnt=" << nMergeNontrivial << " ifs=" << nIf;
+	else o << "ok ops=" << nOps << " maxlive=" << maxLive << " buffers=" << gA.nAlloc << " maxbuffers=" << maxBuffers << " merges=" << nMerge << " mergesnt=" << nMergeNontrivial << " ifs=" << nIf
+		<< " freedif=" << nFreedIf << " alls=" << nAll << " swaps=" << nSwap << " moves=" << nMove << " flushes=" << nFlush << " cachehits=" << nCacheHit << " returned=" << gA.nDealloc;
 	o << merges.str();
 	return o.str();
 }
@@ -548,6 +572,90 @@ template<class F> static std::string forked(F f)
 	return r;
 }
 
+
+// ------------------------------------------------------------------ MemPoolUInt32 (the 32-bit-handle pool of MemPool.h) - oracle only
+// u32 BC blockSize maxTotal ops...    ops: a | f:<k> | x (DeallocateAll)
+template<size_t BC> static std::string u32Case(std::istringstream& is)
+{
+	typedef internal::MemPoolUInt32<BC, PlaceMM> P;
+	ull bs, maxTotal; is >> bs >> maxTotal;
+	gA.reset();
+	std::string failure; size_t nOps = 0, refused = 0, maxLive = 0;
+	auto fail = [&](const std::string& s) { if (failure.empty()) failure = s + " (op #" + std::to_string(nOps) + ")"; };
+	{
+		PlaceMM mm; P pool{size_t(bs), std::move(mm), size_t(maxTotal)};
+		const size_t B = std::max<size_t>(size_t(bs), 4);
+		std::vector<std::pair<uint32_t, ull>> live; std::map<uintptr_t, ull> all; ull serial = 0;
+		auto pattern = [&](ull ser, size_t i) { return uint8_t((ser * 131 + i * 7 + 17) & 0xFF); };
+		auto verify = [&](uintptr_t a, ull ser) { for (size_t i = 0; i < B; ++i) if (reinterpret_cast<uint8_t*>(a)[i] != pattern(ser, i)) return false; return true; };
+		std::string op;
+		while (failure.empty() && (is >> op))
+		{
+			++nOps;
+			if (op[0] == 'a')
+			{
+				uint32_t h;
+				try { h = pool.Allocate(); }
+				catch (const std::length_error&) { ++refused; if (live.size() + BC <= maxTotal / BC * BC) fail("Allocate refused below maxTotalBlockCount"); continue; }
+				if (h == P::nullPtr) fail("Allocate returned the null handle");
+				for (auto& lv : live) if (lv.first == h) fail("handle handed out twice");
+				uintptr_t a = reinterpret_cast<uintptr_t>(pool.template GetRealPointer<void>(h));
+				if (!gA.owns(a, B)) fail("block not inside memory obtained from the manager");
+				auto it = all.lower_bound(a);
+				if (it != all.end() && it->first < a + B) fail("block overlaps a live block (above)");
+				if (it != all.begin()) { auto jt = std::prev(it); if (jt->first + B > a) fail("block overlaps a live block (below)"); }
+				if (live.size() >= maxTotal) fail("more blocks than maxTotalBlockCount");
+				if (!failure.empty()) break;
+				for (size_t i = 0; i < B; ++i) reinterpret_cast<uint8_t*>(a)[i] = pattern(serial, i);
+				all[a] = serial; live.push_back({h, serial}); ++serial; maxLive = std::max(maxLive, live.size());
+			}
+			else if (op[0] == 'f')
+			{
+				if (live.empty()) continue;
+				size_t k = size_t(std::stoull(op.substr(2))); k = (k >= 1000000000) ? live.size() - 1 : k % live.size();
+				auto lv = live[k]; live.erase(live.begin() + long(k));
+				uintptr_t a = reinterpret_cast<uintptr_t>(pool.template GetRealPointer<void>(lv.first));
+				if (!verify(a, lv.second)) fail("bytes written into a live block were overwritten by the pool");
+				all.erase(a); pool.Deallocate(lv.first);
+			}
+			else if (op[0] == 'x') { pool.DeallocateAll(); live.clear(); all.clear(); }
+			for (auto& lv : live)
+				if (!gA.owns(reinterpret_cast<uintptr_t>(pool.template GetRealPointer<void>(lv.first)), B)) fail("a live block is no longer inside owned memory");
+			if (!gA.error.empty()) fail(gA.error);
+		}
+		for (auto& kv : all) if (failure.empty() && !verify(kv.first, kv.second)) fail("bytes written into a live block were overwritten by the pool");
+		while (failure.empty() && !live.empty()) { pool.Deallocate(live.back().first); live.pop_back(); }
+		if (!failure.empty()) { pool.mAllocCount = 0; }
+	}
+	if (failure.empty() && !gA.live.empty()) failure = "memory not returned: " + std::to_string(gA.live.size()) + " manager block(s) still owned after the pool was destroyed";
+	if (failure.empty() && !gA.error.empty()) failure = gA.error;
+	if (!failure.empty()) return "FAIL " + failure;
+	return "ok ops=" + std::to_string(nOps) + " maxlive=" + std::to_string(maxLive) + " refused=" + std::to_string(refused) + " mgrallocs=" + std::to_string(gA.nAlloc);
+}
+
+// ctor BC bs al : constructing a pool with (possibly absurd) parameters: ok | length_error | Stuck (a MOMO_CHECK assertion)
+template<size_t BC> static std::string ctorCase(std::istringstream& is)
+{
+	ull bs, al; is >> bs >> al; gA.reset();
+	try { typename Pool<BC, 0>::Params prm{size_t(bs), size_t(al)}; Pool<BC, 0> pool(prm); (void)pool; }
+	catch (const std::length_error&) { return gA.nAlloc == 0 ? "length_error" : "FAIL allocated before throwing"; }
+	return "ok";
+}
+
+template<size_t BC, size_t CF> static std::string histCase(std::istringstream& is, bool trace = false) { return histCaseP<Pool<BC, CF>>(is, trace); }
+
+// the audit variants, selected by the suffix of the command (hist@n, tr@s, ...)
+static std::string histVariant(char v, ull bc, ull cf, ull bs, ull al, std::istringstream& is, bool trace)
+{
+	if (v == 'n') { if (bc == 32 && cf == 16) return histCaseP<PoolN<32, 16>>(is, trace); if (bc == 2 && cf == 0) return histCaseP<PoolN<2, 0>>(is, trace); if (bc == 1 && cf == 1) return histCaseP<PoolN<1, 1>>(is, trace); }
+	if (v == 's') { if (bs == 24 && al == 8 && bc == 32 && cf == 16) return histCaseP<PoolS<24, 8, 32, 16>>(is, trace);
+		if (bs == 5 && al == 3 && bc == 1 && cf == 0) return histCaseP<PoolS<5, 3, 1, 0>>(is, trace);
+		if (bs == 17 && al == 16 && bc == 2 && cf == 1) return histCaseP<PoolS<17, 16, 2, 1>>(is, trace); }
+	if (v == 'x') { if (bc == 4 && cf == 2) return histCaseP<Pool<4, 2>>(is, trace); if (bc == 64 && cf == 64) return histCaseP<Pool<64, 64>>(is, trace);
+		if (bc == 126 && cf == 3) return histCaseP<Pool<126, 3>>(is, trace); if (bc == 1 && cf == 2) return histCaseP<Pool<1, 2>>(is, trace); }
+	return "?variant";
+}
+
 #define DISPATCH(F, bc, cf, ...) \
 	((bc) == 1 ? ((cf) == 0 ? F<1, 0>(__VA_ARGS__) : (cf) == 1 ? F<1, 1>(__VA_ARGS__) : F<1, 16>(__VA_ARGS__)) : \
 	 (bc) == 2 ? ((cf) == 0 ? F<2, 0>(__VA_ARGS__) : (cf) == 1 ? F<2, 1>(__VA_ARGS__) : F<2, 16>(__VA_ARGS__)) : \
@@ -579,6 +687,13 @@ int main()
 				else out = DISPATCH(tvCase, bc, cf, cmd, is);
 			}
 			else if (cmd == "fabmg" || cmd == "fabmv" || cmd == "fabdel") out = forked([&] { return fabCase(cmd, is); });
+			else if (cmd.size() > 3 && (cmd.compare(0, 5, "hist@") == 0 || cmd.compare(0, 3, "tr@") == 0))
+			{
+				bool trace = cmd[0] == 't'; char v = cmd[cmd.find('@') + 1];
+				ull bc, cf; is >> bc >> cf;
+				std::streampos pos = is.tellg(); ull bs = 0, al = 0; is >> bs >> al; is.seekg(pos);
+				out = forked([&] { return histVariant(v, bc, cf, bs, al, is, trace); });
+			}
 			else if (cmd == "tr")
 			{
 				ull bc, cf; is >> bc >> cf;
@@ -590,6 +705,16 @@ int main()
 				ull bc, cf; is >> bc >> cf;
 				if (!(bc == 1 || bc == 2 || bc == 3 || bc == 31 || bc == 32 || bc == 127) || !(cf == 0 || cf == 1 || cf == 16)) out = "?";
 				else out = forked([&] { return DISPATCH(histCase, bc, cf, is, false); });
+			}
+			else if (cmd == "u32")
+			{
+				ull bc; is >> bc;
+				out = forked([&] { return bc == 1 ? u32Case<1>(is) : bc == 2 ? u32Case<2>(is) : bc == 16 ? u32Case<16>(is) : bc == 32 ? u32Case<32>(is) : std::string("?"); });
+			}
+			else if (cmd == "ctor")
+			{
+				ull bc; is >> bc;
+				out = forked([&] { return bc == 1 ? ctorCase<1>(is) : bc == 2 ? ctorCase<2>(is) : bc == 32 ? ctorCase<32>(is) : bc == 127 ? ctorCase<127>(is) : std::string("?"); });
 			}
 			else if (cmd == "consts") out = std::to_string(ull(internal::UIntConst::maxAllocAlignment)) + " " + std::to_string(ull(internal::UIntConst::maxSize)) + " " + std::to_string(ull(sizeof(void*)));
 			else out = "?";
